@@ -46,9 +46,21 @@ RSet(num, den) ==
   LET fl == num \div den   rem == num % den
   IN  IF 2*rem > den THEN {fl + 1} ELSE IF 2*rem < den THEN {fl} ELSE {fl, fl + 1}
 
-(* round(num/den, 4) * 10^4 *)
+RECURSIVE Gcd2(_, _)
+Gcd2(a, b) == IF b = 0 THEN a ELSE Gcd2(b, a % b)
+RECURSIVE IsPow2(_)
+IsPow2(k) == IF k <= 1 THEN k = 1 ELSE (k % 2 = 0 /\ IsPow2(k \div 2))
+
+(* round(num/den, 4) * 10^4 of a float that carries rounding error: both neighbours at a tie *)
 R4(num, den)    == RHalfEven(num * 10000, den)
 R4Set(num, den) == RSet(num * 10000, den)
+(* round(float(num)/float(den), 4) * 10^4 for small integers num, den: the division is correctly  *)
+(* rounded, so if num/den is a dyadic rational (reduced denominator a power of two) the double is *)
+(* exact and Python's round() resolves a decimal tie deterministically to the even neighbour;     *)
+(* otherwise the double lies on either side of the tie and both neighbours are admitted.          *)
+R4SetDiv(num, den) ==
+  IF num > 0 /\ IsPow2(den \div Gcd2(num, den)) THEN {RHalfEven(num * 10000, den)}
+  ELSE RSet(num * 10000, den)
 
 -----------------------------------------------------------------------------
 (* BigNat *)
